@@ -49,6 +49,13 @@ def pack_scripts(rng, n, noid=4):
                 s += sc.commit([(1, 'v1', ())], clk=3) + sc.undo(first[0], clk=4, more=(first[1],))
                 s += sc.commit([(1, 'v2', ())], clk=5) + sc.undo(-1, clk=6) + sc.pack(sec, gc) + sc.reopen()
                 out.append(s)
+    # deterministic family: several undo records after the pack time point back to DIFFERENT old revisions of one
+    # reachable object; an earlier target holds the only reference to an object that is garbage at the pack time
+    for gc in (True, False):
+        s = sc.commit([(0, 'v1', (1,)), (1, 'v1', ())], clk=1) + sc.commit([(1, 'v1', (2,)), (2, 'v1', ())], clk=2)
+        s += sc.commit([(1, 'v2', ())], clk=3)                                  # 2 is garbage from here on (pack time)
+        s += sc.undo(-1, clk=4) + sc.undo(-1, clk=5) + sc.pack(3, gc) + sc.reopen()   # undo (1 -> 2 again), undo of the undo
+        out.append(s)
     # deterministic family: the newest transaction holds garbage only and is removed by the pack; the clock stalls
     for gc in (True,):
         out.append(sc.commit([(0, 'v1', (1,)), (1, 'v1', ())], clk=1) + sc.commit([(2, 'v1', ())], clk=2) + sc.pack(2, gc)
@@ -125,9 +132,9 @@ def run(ctx):
         cs = sd.consts(kind, **dict(big, MaxTxn=14, MaxRecs=5, MaxClock=8, RefSets='AllRefs'))
         behs = sc.evaluate(ctx, kind, scripts, cs)
         whole = [sc.complete(s_, b) for s_, b in zip(scripts, behs)]
-        if kind == 'file' and not all(whole[:19]):
+        if kind == 'file' and not all(whole[:21]):
             # (an entry that is not enabled in the model ends a script silently: the directed families must run through)
-            raise RuntimeError('directed pack scenarios were not evaluated to their end: %r' % [i for i, w in enumerate(whole[:19]) if not w])
+            raise RuntimeError('directed pack scenarios were not evaluated to their end: %r' % [i for i, w in enumerate(whole[:21]) if not w])
         rs = S.replay_all(ctx, behs, kind, cs, opts={'sparse': False}, tag='scr')
         res += rs
         # the C07 relation evaluated by TLC at every pack step of every script (it is a property of the simulated and
